@@ -41,6 +41,12 @@ def strip1(s, prefix):
     return s[len(prefix):] if s.startswith(prefix) else s
 
 
+# default kinds: none, a truthy scalar / list, and the falsy values that are not None
+DEFAULTS = {"absent": None, "scalar": "d", "list": ["d"], "zero": 0, "zero-float": 0.0, "false": False, "empty-string": "",
+            "empty-list": []}
+DEFAULT_KINDS = list(DEFAULTS)
+
+
 # ---------------------------------------------------------------------------------- options
 OB = dict(PL=1, PS=2, NO=4, REQ=8, OPT=16, MULTI=32, STR=128, BOOL=256, INT=512, FLT=1024, NULL=2048)
 
@@ -69,7 +75,7 @@ def check_option_word(ctx, case, by_construction=False):
     from clikit.api.args.format import Option
 
     w, short, dk = case["flags"], case["short"], case["default"]
-    default = {"absent": None, "scalar": "d", "list": ["d"]}[dk]
+    default = DEFAULTS[dk]
     ctx.case("option-flags", case, bin(w).count("1") >= 2, distinct_by_construction=by_construction)
     why = option_contradiction(w, short, default)
     try:
@@ -137,7 +143,7 @@ def check_argument_word(ctx, case, by_construction=False):
     from clikit.api.args.format import Argument
 
     w, dk = case["flags"], case["default"]
-    default = {"absent": None, "scalar": "d", "list": ["d"]}[dk]
+    default = DEFAULTS[dk]
     ctx.case("argument-flags", case, bin(w).count("1") >= 2, distinct_by_construction=by_construction)
     why = argument_contradiction(w, default)
     try:
@@ -352,18 +358,18 @@ def shard_options(ctx, arg):
     lo, hi = arg
     for w in range(lo, hi):
         for short in (None, "s"):
-            for dk in ("absent", "scalar", "list"):
+            for dk in DEFAULT_KINDS:
                 check_option_word(ctx, {"flags": w, "short": short, "default": dk}, True)
 
 
 def run(ctx):
     quick = ctx.tier == "quick"
     ctx.parallel("shard_options", [(i * 512, (i + 1) * 512) for i in range(16)])
-    ctx.exhaustive("option-flags", True, "2^13 flag words x short given/absent x 3 default kinds")
+    ctx.exhaustive("option-flags", True, "2^13 flag words x short given/absent x %d default kinds (none, truthy scalar/list, 0, 0.0, False, empty string/list)" % len(DEFAULT_KINDS))
     for w in range(2048):
-        for dk in ("absent", "scalar", "list"):
+        for dk in DEFAULT_KINDS:
             check_argument_word(ctx, {"flags": w, "default": dk}, True)
-    ctx.exhaustive("argument-flags", True, "2^11 flag words x 3 default kinds")
+    ctx.exhaustive("argument-flags", True, "2^11 flag words x %d default kinds" % len(DEFAULT_KINDS))
     for w in range(8):
         for short in (None, "s"):
             for aliases in ([], ["x"], ["alias"], ["x", "alias", "y"], ["al-2", "B"]):
